@@ -23,7 +23,7 @@ var c19Methods = []struct {
 	nse  bool
 }{{"Unary", false}, {"Pure", true}, {"Idem", false}, {"NoRule", false}, {"SStream", false}, {"CStream", false}, {"Bidi", false}} // (the issue side uses the first three)
 
-var c19Msgs = []string{`{"name":"a","num":7}`, `{}`, `{"name":"é/😀?&=+%","tags":["x y"]}`, `{"raw":"AP8+/w==","seq":"-1"}`, `{"extraText":"` + strings.Repeat("w", 300) + `"}`}
+var c19Msgs = []string{`{"name":"a","num":7}`, `{"name":"a;b","tags":[";"]}`, `{}`, `{"name":"é/😀?&=+%","tags":["x y"]}`, `{"raw":"AP8+/w==","seq":"-1"}`, `{"extraText":"` + strings.Repeat("w", 300) + `"}`}
 
 // c19GetTarget builds a Connect GET request-target with explicit knobs.
 func c19GetTarget(path, codec, comp string, msg proto.Message, b64 int) (string, bool) {
@@ -83,6 +83,11 @@ func init() {
 			target = strings.Replace(target, "connect=v1&", "", 1)
 		}
 		c.Attr("~get-form", []string{"query", "header", "query+header"}[getForm])
+		if strings.Contains(target, "%3B") && c.Free("semicolon-spelling", 2) == 1 {
+			// RFC 3986 allows a raw ';' in a query; Go's server hands it to the handler as it is
+			target = strings.ReplaceAll(target, "%3B", ";")
+			c.Attr("~semicolon", "raw")
+		}
 		run := func(spec *drive.ReqSpec) (*world.Backend, *world.Exchange) {
 			be := &world.Backend{Respond: func(b *world.Backend, r *http.Request) *world.Reply {
 				return world.EchoReply(b.Parsed, [][]byte{Enc(b.Parsed.Codec, MkMsg(`{"name":"ok"}`))}, "", nil)
